@@ -204,7 +204,8 @@ func (n *LNode) Step(e Event, raw *interfaces.ConsensusRawMessage, info ref.Info
 		oi := ref.Parse(o.Msg)
 		obs.Outs = append(obs.Outs, OutRec{To: n.idxOf(o.To), Raw: o.Msg, Info: oi})
 		if oi.Bad || oi.Sender.ID != me || oi.Hdr.Height != sh.Height {
-			if !oi.Bad && oi.Hdr.Height != sh.Height {
+			// outputs of the next height emitted in the step that committed belong to the new term
+			if !oi.Bad && oi.Hdr.Height != sh.Height && oi.Hdr.Height != height {
 				bad("C17", "output-for-other-height", "emitted %s while at height %d", oi.Desc(), sh.Height)
 			}
 			continue
@@ -232,6 +233,9 @@ func (n *LNode) Step(e Event, raw *interfaces.ConsensusRawMessage, info ref.Info
 			if v > 0 {
 				ids := map[string]bool{}
 				for id := range sh.Votes[v] {
+					ids[id] = true
+				}
+				for id := range sh.OptVotes[v] {
 					ids[id] = true
 				}
 				if sh.TimedOutTo[v] {
@@ -421,8 +425,8 @@ func (n *LNode) checkOwnNewView(oi ref.Info, preReqs int, bad func(prop, clause,
 			continue
 		}
 		if vt.Sender.ID != me {
-			if d, ok := sh.Votes[v][vt.Sender.ID]; ok && d.Proof.String() != vt.Proof.String() {
-				bad("C09", "newview-vote-altered", "NEW_VIEW for view %d embeds a vote of %s that differs from the one delivered", v, vt.Sender.ID)
+			if fs := sh.VoteForms[v][vt.Sender.ID]; fs != nil && !fs[vt.Proof.String()] {
+				bad("C09", "newview-vote-altered", "NEW_VIEW for view %d embeds a vote of %s that differs from every vote of that member delivered", v, vt.Sender.ID)
 			}
 		} else if pv, ok := sh.HighestPrepared(); ok && (!vt.Proof.Present || vt.Proof.PP.View != pv) {
 			bad("C09", "newview-own-vote-without-proof", "own vote embedded in NEW_VIEW for view %d lacks the proof of prepared view %d", v, pv)
@@ -431,8 +435,17 @@ func (n *LNode) checkOwnNewView(oi ref.Info, preReqs int, bad func(prop, clause,
 			best = &oi.Votes[k]
 		}
 	}
-	if fmt.Sprint(keys(got)) != fmt.Sprint(keys(want)) {
-		bad("C09", "newview-votes-not-those-counted", "NEW_VIEW for view %d embeds votes of %v, the valid votes delivered (plus own) are %v", v, keys(got), keys(want))
+	for id := range want {
+		if !got[id] {
+			bad("C09", "newview-votes-not-those-counted", "NEW_VIEW for view %d embeds votes of %v, the valid votes delivered (plus own) are %v", v, keys(got), keys(want))
+			break
+		}
+	}
+	for id := range got {
+		if !want[id] && !sh.OptVotes[v][id] {
+			bad("C09", "newview-votes-not-those-counted", "NEW_VIEW for view %d embeds votes of %v, the valid votes delivered (plus own) are %v (optional: %v)", v, keys(got), keys(want), keys(sh.OptVotes[v]))
+			break
+		}
 	}
 	if !r.IsQuorum(got) {
 		bad("C09", "newview-votes-below-quorum", "NEW_VIEW for view %d embeds votes of %v only", v, keys(got))
